@@ -40,6 +40,7 @@ func (core *JApiCore) addMacro(d *directive.Directive) *jerr.JApiError {
 	}
 
 	core.macro[name] = d
+	core.macroNames = append(core.macroNames, name)
 
 	return nil
 }
